@@ -678,6 +678,15 @@ func (m *collection) appendChildLLSnapshot(dst *segmentStack,
 			childSnap, _ = src.ChildCollectionSnapshot(cName)
 		}
 
+		// The lower level may still hold a previous incarnation of a
+		// child collection that was deleted and recreated under the
+		// same name; its entries must not show through the new one.
+		if childFooter, ok := childSnap.(*Footer); ok && childFooter != nil &&
+			childFooter.incarNum != childCollection.incarNum {
+			childSnap.Close()
+			childSnap = nil
+		}
+
 		dst.childSegStacks[cName] =
 			childCollection.appendChildLLSnapshot(dstChildStack, childSnap)
 	}
